@@ -30,7 +30,12 @@ RULE = ("random discrete frames: 1..80 rows, 2+|Z| (+1 spare) columns, |Z| 0..3,
         "or a different Z, with in-place edits in between (replace a column, .loc edits, in-place stable sort, in-place "
         "row permutation, new column); every answer is compared with the model on the frame's current content and with "
         "the answer on a fresh copy.  pearsonr extreme unit changes: X, Y by {1e-12,1e-9,3e-9,1e-6,1e6,1e9}, Z columns "
-        "by {1e-9,3e-9,1e-6,1e6,1e9} (coefficient 1e-7, verdict equal); exactly constant X or Y (NaN, verdict False).  A discrete case is non-trivial when the model's dof >= 1; a pearsonr case when the residual "
+        "by {1e-9,3e-9,1e-6,1e6,1e9} (coefficient 1e-7, verdict equal); exactly constant X or Y (NaN, verdict False).  "
+        "Index stream: the same rows under RangeIndex / permuted / gapped / duplicate labels (bootstrap and concat style) / "
+        "string / duplicate string / float / datetime / MultiIndex (unique and duplicate) - all kinds on dedicated cases, two "
+        "kinds (one with duplicates) on every other discrete and pearsonr case; the answer must not change.  Conditioning "
+        "stream (pearson_big): offsets up to 1e9 x spread and units 1e-8..1e8 per column applied in floats; oracle = the "
+        "model's exact partial correlation of the floats as given, tolerance 256*eps*n*max|mean|/spread*(spread/residual spread)^2.  A discrete case is non-trivial when the model's dof >= 1; a pearsonr case when the residual "
         "correlation is defined.  distinct = distinct canonical (kind, data, X, Y, Z, wrapper, lambda_, alpha)")
 TRUSTED_BASE = [
     "scipy.stats.chi2_contingency / power_divergence cell formula (PHI is an uninterpreted atom; the harness "
@@ -256,6 +261,74 @@ def gen_pearson(rng, tier):
             "zperm": rng.randint(0, 10 ** 9)}
 
 
+INDEX_KINDS = ["range", "perm", "gap", "dup", "dup-concat", "str", "str-dup", "float", "date", "multi", "multi-dup"]
+
+
+def make_index(kind, n, seed):
+    """a pandas index of the given kind for n rows (the index is not data)"""
+    import numpy as np
+    import pandas as pd
+    r = np.random.RandomState(seed % (2 ** 31))
+    if kind == "range":
+        return pd.RangeIndex(n)
+    if kind == "perm":
+        return pd.Index(r.permutation(n))
+    if kind == "gap":
+        return pd.Index(np.sort(r.choice(10 * n + 10, size=n, replace=False)))
+    if kind == "dup":          # bootstrap style: labels drawn with replacement
+        return pd.Index(r.randint(0, max(1, n // 2), size=n))
+    if kind == "dup-concat":   # pd.concat of two frames without ignore_index
+        h = (n + 1) // 2
+        return pd.Index(list(range(h)) + list(range(n - h)))
+    if kind == "str":
+        return pd.Index(["r%d" % i for i in r.permutation(n)])
+    if kind == "str-dup":
+        return pd.Index(["k%d" % i for i in r.randint(0, 3, size=n)])
+    if kind == "float":
+        return pd.Index(r.permutation(n) / 4.0)
+    if kind == "date":
+        return pd.date_range("2020-01-01", periods=n)
+    if kind == "multi":
+        return pd.MultiIndex.from_arrays([r.randint(0, 3, size=n), np.arange(n)])
+    if kind == "multi-dup":
+        return pd.MultiIndex.from_arrays([r.randint(0, 2, size=n), r.randint(0, 2, size=n)])
+    raise ValueError(kind)
+
+
+def index_kinds_for(case):
+    """all kinds for the cases of the index stream, two (one of them with duplicate labels) otherwise"""
+    if case.get("index_all"):
+        return list(INDEX_KINDS)
+    r = random.Random(case.get("sh", case.get("zperm", 0)))
+    return [r.choice(["dup", "dup-concat", "str-dup", "multi-dup"]), r.choice(INDEX_KINDS)]
+
+
+# offsets (in units of the column's spread) and unit changes for the conditioning stream
+BIG_OFFSETS = [0.0, 1e2, 1e4, 1e6, 4e6, 1e7, 1e8, 1e9]
+BIG_SCALES = [1e-8, 1e-6, 1e-3, 1.0, 1e3, 1e6, 1e8]
+
+
+def gen_pearson_big(rng, tier):
+    """large offsets (up to 1e9 x spread) and units spanning 1e-8..1e8 per column; the oracle is the exact partial
+    correlation of the float data AS GIVEN"""
+    c = gen_pearson(rng, tier)
+    while c["const"] or c["sing"] or len(c["x"]) > 16 or len(c["x"]) < 6 or (c["z"] and len(c["z"][0]) > 2):
+        c = gen_pearson(rng, tier)
+    nz = len(c["z"][0]) if c["z"] else 0
+    c["kind"] = "pearson_big"
+    t = rng.choice(["z-offset", "z-offset", "all-offset", "units", "both"])
+    offs = [0.0] * (nz + 2)
+    scs = [1.0] * (nz + 2)
+    for j in range(nz + 2):
+        isz = j >= 2
+        if t in ("z-offset", "both") and isz or t == "all-offset":
+            offs[j] = rng.choice(BIG_OFFSETS) * rng.choice([1, -1])
+        if t in ("units", "both"):
+            scs[j] = rng.choice(BIG_SCALES)
+    c["big"] = {"type": t, "offsets": offs, "scales": scs}
+    return c
+
+
 def gen_session(rng, tier):
     """one DataFrame OBJECT, 2-4 conditional/unconditional tests on it with in-place edits in between"""
     ncols = rng.randint(4, 5)
@@ -315,6 +388,19 @@ def cases(tier, seed):
                 out.append(gen_lambda(rng, larg, with_z))
     for _ in range(150 * mult):
         out.append(gen_session(rng, tier))
+    # index stream: the same rows under every kind of pandas index
+    for _ in range(60 * mult):
+        c = gen_disc(rng, tier)
+        while len(c["rows"]) < 8:
+            c = gen_disc(rng, tier)
+        c["index_all"] = True
+        out.append(c)
+    for _ in range(20 * mult):
+        c = gen_pearson(rng, tier)
+        c["index_all"] = True
+        out.append(c)
+    for _ in range(80 * mult):
+        out.append(gen_pearson_big(rng, tier))
     for _ in range(250 * mult):
         out.append(gen_indep(rng, tier))
     for _ in range(90 * mult):
@@ -568,6 +654,11 @@ def run_disc(case, drv):
         while Z2 == list(Z):
             rng.shuffle(Z2)
         rel.append(("z-order", df, X, Y, Z2))
+    for kind in index_kinds_for(case):
+        d2 = df.copy()
+        d2.index = make_index(kind, len(d2), case["sh"])
+        rel.append(("index-" + kind, d2, X, Y, Z))
+        tags.append("index:%s:%s" % (kind, "Z" if Z else "noZ"))
     for name, d2, x2, y2, z2 in rel:
         other = impl_triple(case, d2, names, x2, y2, z2)
         if not triples_agree(other, impl):
@@ -699,6 +790,11 @@ def run_pearson(case, drv):
         sd = {c: float(df[c].std()) for c in zn}
         if all(v > 0 for v in sd.values()):
             variants.append(("z-standardise-columns", df.assign(**{c: (df[c] - df[c].mean()) / sd[c] for c in zn}), zn))
+    for kind in index_kinds_for(case):
+        d2 = df.copy()
+        d2.index = make_index(kind, n, case["zperm"])
+        variants.append(("index-" + kind, d2, zn))
+        tags.append("index:%s:%s" % (kind, "Z" if nz else "noZ"))
     xs = case.get("xscales")
     if xs:
         cols = ["X", "Y"] + zn
@@ -721,6 +817,69 @@ def run_pearson(case, drv):
     c2, p2 = CITests.pearsonr("Y", "X", zn, df, boolean=False)
     if not same_float(c2, coef_i, 1e-9):
         return bad("impl!=property:pearson-swap-xy", {"base": coef_i, "transformed": float(c2)}, key=key, tags=tags)
+    return ok(nontrivial=True, key=key, tags=tags)
+
+
+def run_pearson_big(case, drv):
+    import numpy as np
+    import pandas as pd
+    from pgmpy.estimators import CITests
+    den, big = case["den"], case["big"]
+    z, x, y = case["z"], case["x"], case["y"]
+    n = len(x)
+    nz = len(z[0]) if z else 0
+    cols = [np.array(x) / den, np.array(y) / den] + [np.array([r[j] for r in z]) / den for j in range(nz)]
+    names = ["X", "Y"] + ["Z%d" % j for j in range(nz)]
+    zn = names[2:]
+    given = []
+    for j, col in enumerate(cols):
+        sd = float(col.std()) or 1.0
+        given.append((col + big["offsets"][j] * sd) * big["scales"][j])      # float arithmetic: the data AS GIVEN
+    df = pd.DataFrame({nm: g for nm, g in zip(names, given)})
+    # conditioning of the data itself: a column with |mean|/spread = k carries 16 - log10(k) digits
+    kappa = 1.0
+    for g in given:
+        sd = float(np.std(g))
+        if sd > 0:
+            kappa = max(kappa, abs(float(np.mean(g))) / sd)
+    zscales = [big["scales"][j] for j in range(2, nz + 2)]
+    tags = ["kind:pearson_big", "nz:%d" % nz, "big:" + big["type"], "offset/spread:1e%d" % round(math.log10(kappa)),
+            "unit-span:1e%d" % round(math.log10(max(big["scales"]) / min(big["scales"])))]
+    key = common.canon_key(["pearson_big", z, x, y, big, case["alpha"]])
+    # the untransformed dyadic data: is the partial correlation defined at all, and how much of X and Y is left
+    # after regressing on Z (a small residual amplifies every perturbation of the data by spread/residual spread)
+    fb = lambda v: Fraction(v, den)
+    mb = drv.call("c19_pearson", [nz == 0, [[fb(v) for v in r] for r in z], [fb(v) for v in x], [fb(v) for v in y]])
+    if not mb[3]:
+        return ok(nontrivial=False, key=key, tags=tags + ["corr:undefined"])
+    amp = 1.0
+    for res, col in ((mb[0], cols[0]), (mb[1], cols[1])):
+        rs = float(np.std([float(common.frac(v)) for v in res]))
+        amp = max(amp, float(col.std()) / rs)
+    fr = lambda a: [Fraction(float(v)) for v in a]
+    zr = [[Fraction(float(given[2 + j][i])) for j in range(nz)] for i in range(n)]
+    m = drv.call("c19_pearson", [nz == 0, zr, fr(given[0]), fr(given[1])])
+    corr = m[3]
+    if not corr:
+        return ok(nontrivial=False, key=key, tags=tags + ["corr:undefined"])
+    r_m = corr[0][0] * math.sqrt(float(common.frac(corr[0][1])))
+    coef_i, p_i = CITests.pearsonr("X", "Y", zn, df, boolean=False)
+    coef_i, p_i = float(coef_i), float(p_i)
+    eps = 2.220446049250313e-16
+    tol = max(1e-8, 256.0 * eps * kappa * n * amp * amp)
+    tol_p = max(1e-8, 10.0 * math.sqrt(n) * tol)
+    p_m = pearson_p(r_m, n)
+    detail = {"impl": [coef_i, p_i], "model_exact_on_given_floats": [r_m, p_m], "tolerance": tol, "offset/spread": kappa, "spread/residual-spread": amp,
+              "offsets": big["offsets"], "scales": big["scales"], "n": n}
+    if not (abs(coef_i - r_m) <= tol and abs(p_i - p_m) <= tol_p):
+        # known class on the tree without the centring repair: lstsq(rcond=None) on the raw [1 Z] drops (or loses
+        # digits of) a conditioning column with a large offset or a very different unit
+        return bad("impl!=model:pearson-conditioning", detail, key=key, tags=tags,
+                   finding="pearsonr-lstsq-conditioning" if nz else None)
+    alpha = case["alpha"]
+    v_i = bool(CITests.pearsonr("X", "Y", zn, df, boolean=True, significance_level=alpha))
+    if abs(p_m - alpha) > tol_p and v_i != bool(drv.call("c19_verdict", [p_opt(p_m), Fraction(alpha)])):
+        return bad("impl!=model:verdict", detail, key=key, tags=tags)
     return ok(nontrivial=True, key=key, tags=tags)
 
 
@@ -787,6 +946,8 @@ def run_session(case, drv):
 def run_case(case, drv):
     if case["kind"] == "session":
         return run_session(case, drv)
+    if case["kind"] == "pearson_big":
+        return run_pearson_big(case, drv)
     if case["kind"] in ("disc", "indep", "bad"):
         return run_disc(case, drv)
     if case["kind"] == "pearson":
